@@ -223,18 +223,20 @@ fn run_cmd(cmd: &mut std::process::Command) -> (i32, String) {
 fn miri_tier(ck: &mut Check, n: usize) {
     // histories generated by the same strategy, written to a file, run by `cargo +nightly miri run`
     let hs = sample_strategy(&history(20), seed_mix(ck.seed, 0x171717), n);
-    let dir = "/verif/target/c17-miri";
+    // DV_MIRI / DV_MIRI_TARGET / DV_SCRATCH: a scratch copy of the tree under test (tools/mutcheck.sh)
+    let scratch = std::env::var("DV_SCRATCH").unwrap_or_else(|_| "/verif/target".into());
+    let dir = &format!("{scratch}/c17-miri");
     let _ = std::fs::create_dir_all(dir);
     let path = format!("{dir}/histories.json");
     std::fs::write(&path, serde_json::to_string(&hs).unwrap()).unwrap();
     let mut cmd = std::process::Command::new("cargo");
-    cmd.current_dir("/verif/miri")
+    cmd.current_dir(std::env::var("DV_MIRI").unwrap_or_else(|_| "/verif/miri".into()))
         .args(["+nightly", "miri", "run", "--quiet", "--"])
         .arg(&path)
         .env("CARGO_NET_OFFLINE", "true")
         .env("RUSTFLAGS", "--cfg dashu_verif")
         .env("MIRIFLAGS", "-Zmiri-disable-isolation")
-        .env("CARGO_TARGET_DIR", "/verif/target/miri");
+        .env("CARGO_TARGET_DIR", std::env::var("DV_MIRI_TARGET").unwrap_or_else(|_| "/verif/target/miri".into()));
     let (code, outp) = run_cmd(&mut cmd);
     let ran = outp.lines().filter(|l| l.starts_with("MIRI-OK")).count() as u64;
     let mut labels = std::collections::BTreeMap::new();
@@ -261,18 +263,21 @@ fn miri_tier(ck: &mut Check, n: usize) {
 
 fn fuzz_tier(ck: &mut Check, runs: u64) {
     let seed = (ck.seed % 0x7fff_fffe) + 1;
-    let corpus = "/verif/target/c17-fuzz-corpus";
+    let scratch = std::env::var("DV_SCRATCH").unwrap_or_else(|_| "/verif/target".into());
+    let harness = std::env::var("DV_HARNESS").unwrap_or_else(|_| "/verif/harness".into());
+    let corpus = &format!("{scratch}/c17-fuzz-corpus");
+    let artifacts = format!("{scratch}/c17-fuzz-artifacts");
     let _ = std::fs::remove_dir_all(corpus);
     let _ = std::fs::create_dir_all(corpus);
     let mut cmd = std::process::Command::new("cargo");
-    cmd.current_dir("/verif/harness")
-        .args(["+nightly", "fuzz", "run", "int_vm", corpus, "/verif/harness/fuzz/corpus-seed/int_vm", "--"])
+    cmd.current_dir(&harness)
+        .args(["+nightly", "fuzz", "run", "int_vm", corpus, &format!("{harness}/fuzz/corpus-seed/int_vm"), "--"])
         .arg(format!("-runs={runs}"))
         .arg(format!("-seed={seed}"))
-        .args(["-len_control=0", "-max_len=1200", "-artifact_prefix=/verif/target/c17-fuzz-artifacts/", "-print_final_stats=1"])
+        .args(["-len_control=0", "-max_len=1200", &format!("-artifact_prefix={artifacts}/"), "-print_final_stats=1"])
         .env("CARGO_NET_OFFLINE", "true")
         .env("RUSTFLAGS", "--cfg dashu_verif");
-    let _ = std::fs::create_dir_all("/verif/target/c17-fuzz-artifacts");
+    let _ = std::fs::create_dir_all(&artifacts);
     let (code, outp) = run_cmd(&mut cmd);
     let execs = outp.lines().find_map(|l| l.strip_prefix("stat::number_of_executed_units:").map(|s| s.trim().parse::<u64>().unwrap_or(0))).unwrap_or(0);
     let mut labels = std::collections::BTreeMap::new();
